@@ -281,6 +281,15 @@ class Model:
             return
         new_id = hint.get("id_response")
         exp.writes.append(("idresp", (n, c)))
+        failed_id = hint.get("id_response_failed")
+        if new_id is None and isinstance(failed_id, int):
+            # the response write failed: the id may stay reserved or be rolled back (either)
+            exp.outcome, exp.error = "error", ()
+            exp.open_points.append("id-response-write-failed")
+            if failed_id in hint.get("registry_ids", ()) and failed_id not in self.nodes:
+                self.nodes[failed_id] = MNode(17, "1.4", placeholder=True)
+                self.handed_out.add(failed_id)
+            return
         if isinstance(new_id, int):
             if new_id not in self.nodes:
                 self.nodes[new_id] = MNode(17, "1.4", placeholder=True)
